@@ -424,7 +424,7 @@ theorem ite_bool_false {α : Type} (b : Bool) (hb : b = false) (x y : α) :
 
 theorem applyAct_inv_func (iftab argc : Nat) (chk : Bool) (s : St) (h : Inv s) :
     (∀ s', applyAct (.func iftab argc chk) s = .ok s' → Inv s') ∧
-    (∀ m, applyAct (.func iftab argc chk) s = .panic m → m = "FTAB index") := by
+    (∀ m, applyAct (.func iftab argc chk) s = .panic m → False) := by
   obtain ⟨buf, stk⟩ := s
   obtain ⟨hp, hb⟩ := h
   simp only at hb
@@ -503,20 +503,20 @@ theorem applyAct_inv_func (iftab argc : Nat) (chk : Bool) (s : St) (h : Inv s) :
       have := inv_push (buf := buf) (stk := stk) (name ++ ['(', ')']) ⟨hp, hb⟩
       simpa [List.append_assoc] using this
 
-/-- every edit keeps the offsets sorted and inside the buffer, and the only panic an edit can raise from such a
-    state is the unchecked `FTAB[iftab]` index: `split_off`, `insert`, `*s -= start` and the `fargs[..]` slices
-    never fail -/
+/-- every edit keeps the offsets sorted and inside the buffer, and no edit panics from such a state:
+    `split_off`, `insert`, `*s -= start` and the `fargs[..]` slices never fail (the function name is looked up
+    with `FTAB.get`) -/
 theorem applyAct_inv (a : Act) (s : St) (h : Inv s) :
-    (∀ s', applyAct a s = .ok s' → Inv s') ∧ (∀ m, applyAct a s = .panic m → m = "FTAB index") := by
+    (∀ s', applyAct a s = .ok s' → Inv s') ∧ (∀ m, applyAct a s = .panic m → False) := by
   by_cases hf : ∃ i n c, a = .func i n c
   · obtain ⟨i, n, c, rfl⟩ := hf
     exact applyAct_inv_func i n c s h
   · have hf' : ∀ i n c, a ≠ .func i n c := fun i n c he => hf ⟨i, n, c, he⟩
     have := applyAct_inv_simple a s h hf'
-    exact ⟨this.1, fun m hm => absurd hm (this.2 m)⟩
+    exact ⟨this.1, fun m hm => this.2 m hm⟩
 
 theorem runActs_inv (as : List Act) (s : St) (h : Inv s) :
-    (∀ s', runActs as s = .ok s' → Inv s') ∧ (∀ m, runActs as s = .panic m → m = "FTAB index") := by
+    (∀ s', runActs as s = .ok s' → Inv s') ∧ (∀ m, runActs as s = .panic m → False) := by
   induction as generalizing s with
   | nil => simp [runActs]; exact h
   | cons a as ih =>
@@ -525,7 +525,7 @@ theorem runActs_inv (as : List Act) (s : St) (h : Inv s) :
     cases hr : applyAct a s with
     | ok s1 => simp only; exact ih s1 (ha.1 s1 hr)
     | err e => simp
-    | panic m => simp only [Res.panic.injEq]; exact ⟨by simp, fun m' hm => by rw [← hm]; exact ha.2 m hr⟩
+    | panic m => exact absurd hr (fun h => ha.2 m h)
     | outOfFuel => simp
 
 theorem inv_init : Inv ⟨[], []⟩ := ⟨List.Pairwise.nil, by simp⟩
